@@ -647,7 +647,31 @@ func exportKind(r *engine.Run) {
 // ---- AGREE-limits -------------------------------------------------------------------
 
 func decLimits(f *ssa.Function) map[string]string {
+	return decLimitsDepth(f, 0)
+}
+
+// decLimitsDepth collects the DecOptions fields set in f or, when f sets none,
+// in the package-local helpers it calls (the options may be built in one place).
+func decLimitsDepth(f *ssa.Function, depth int) map[string]string {
 	out := map[string]string{}
+	defer func() {
+		if len(out) > 0 || depth > 1 {
+			return
+		}
+		engine.Instrs(f, func(in ssa.Instruction) {
+			c, ok := in.(*ssa.Call)
+			if !ok {
+				return
+			}
+			g := c.Call.StaticCallee()
+			if g == nil || g.Pkg != f.Pkg || len(g.Blocks) == 0 || g == f {
+				return
+			}
+			for k, v := range decLimitsDepth(g, depth+1) {
+				out[k] = v
+			}
+		})
+	}()
 	engine.Instrs(f, func(in ssa.Instruction) {
 		st, ok := in.(*ssa.Store)
 		if !ok {
